@@ -75,6 +75,15 @@ def main(ctx, replay=None):
         if res.distinct < 1000:
             raise MachineryError(f"scheduler model for {sc} explored only {res.distinct} states")
 
+    # coarse model: every SUBSET of the pool as a state (closure exact, complete, request-independent); the fine model's
+    # invariant Final is the refinement link (tasks at the end of resolve = closure of the requested roots)
+    ccfg = "SchedCoarse_small.cfg" if ctx.tier == "quick" else "SchedCoarse_full.cfg"
+    for sc in sched.SCENARIOS:
+        res = must_ok(run_tlc("SchedCoarse", ccfg, scr[sc], workers=16, timeout=1800))
+        ctx.add_tlc(res)
+        if res.distinct not in (512, 2 ** 21):
+            raise MachineryError(f"coarse scheduler model explored {res.distinct} states")
+
     # ---- request sequences from TLC ----------------------------------------------------------------------
     seqs = []
     plan = ((1, 6), (2, 8), (3, 6), (5, 5), (9, 4), (21, 2)) if ctx.tier == "quick" else \
